@@ -44,6 +44,7 @@ func (s *SplitStrategy) Compute(snapshots <-chan *asset.Snapshot) <-chan Action 
 	buyActions := s.BuyStrategy.Compute(snapshotsSplice[0])
 	sellActions := s.SellStrategy.Compute(snapshotsSplice[1])
 
+	helper.VerifStage("Split", 0, []any{buyActions, sellActions}, []any{result})
 	go func() {
 		defer close(result)
 
